@@ -26,6 +26,40 @@ func deadlineClose(a, b int64) bool {
 	return d >= -ttlTolerance && d <= ttlTolerance
 }
 
+// storeExpiries: every request of a step that fixes an expiry on a tier (store,
+// touch, get-and-touch) and is accepted must ask for the expiry the client last
+// asked for -- also when the entry it writes is dead on arrival and therefore
+// invisible to tierDeadlines (a never-expiring item re-populated with "now").
+func storeExpiries(name string, reqs []fakemc.Req, chunkedTier bool, m *refmodel.Model, keys []string, now int64) string {
+	for _, r := range reqs {
+		switch r.Opcode {
+		case fakemc.OpSet, fakemc.OpAdd, fakemc.OpReplace, fakemc.OpSetQ, fakemc.OpAddQ, fakemc.OpReplaceQ, fakemc.OpTouch, fakemc.OpGat, fakemc.OpGatQ:
+		default:
+			continue
+		}
+		if r.Status != 0 && r.Status != 0xffff {
+			continue // refused by the tier: no effect
+		}
+		k := r.Key
+		if chunkedTier {
+			k = ""
+			for _, ck := range keys {
+				if derivedFrom(r.Key, ck) {
+					k = ck
+				}
+			}
+		}
+		it := m.Live(k, now)
+		if k == "" || it == nil {
+			continue
+		}
+		if d := fakemc.Deadline(r.Exptime, now); !deadlineClose(d, it.Deadline) {
+			return fmt.Sprintf("%s: request opcode %#x for entry %q carries exptime %d, i.e. expiry %d; the client last asked for %d (now %d)", name, r.Opcode, r.Key, r.Exptime, d, it.Deadline, now)
+		}
+	}
+	return ""
+}
+
 // tierDeadlines checks one tier's fake against the model.  authoritative: every
 // live model key must be present; otherwise only live entries are compared.
 func tierDeadlines(name string, f *fakemc.Server, chunkedTier bool, m *refmodel.Model, keys []string, now int64, authoritative bool) string {
@@ -185,6 +219,10 @@ func TestC09(t *testing.T) {
 			descr = append(descr, c.String())
 			liveBefore := model.Live(c.Key, now) != nil
 			exp := model.Apply(c, now)
+			l1From, l2From := st.L1.LogLen(), 0
+			if st.L2 != nil {
+				l2From = st.L2.LogLen()
+			}
 			got, err := ses.client(c.Port).Do(c)
 			if err != nil {
 				undecidedOrHang(t, rec, st, ses.client(c.Port), err, fmt.Sprintf("C09 %s step %d: %v", cfg, i, err))
@@ -207,6 +245,14 @@ func TestC09(t *testing.T) {
 				}
 			}
 			check(i)
+			if msg := storeExpiries("L1", st.L1.Log()[l1From:], cfg.L1 == "chunked", model, keys, nowUnix()); msg != "" {
+				fail(i, msg)
+			}
+			if st.L2 != nil {
+				if msg := storeExpiries("L2", st.L2.Log()[l2From:], false, model, keys, nowUnix()); msg != "" {
+					fail(i, msg)
+				}
+			}
 			for _, f := range []*fakemc.Server{st.L1, st.L2} {
 				if f != nil {
 					if bad := f.Bad(); len(bad) > 0 {
